@@ -493,6 +493,17 @@ func (c18) Gen(rng *rand.Rand, tier string, emit func(string)) {
 		cmd("obiconvert", "fifo", 4000, k, "json")
 	}
 	cmd("obicsv", "stdoutfull", 3, 0, "csv-gz")
+	// a command whose result is EMPTY (obigrep selecting nothing), default format and every explicit one, -Z or not:
+	// `-o /dev/full`, `> /dev/full`, `-o <missing or read-only directory>/x`
+	for _, fm := range []string{"fasta", "gz", "xfasta", "xfasta-gz", "fastq-gz", "json", "json-gz"} {
+		cmd("obigrep", "empty-devfull", 3, 0, fm)
+		if fm == "gz" || fm == "xfasta-gz" || fm == "json" {
+			cmd("obigrep", "empty-stdoutfull", 3, 0, fm)
+		}
+	}
+	cmd("obigrep", "empty-nodir", 3, 0, "gz")
+	cmd("obigrep", "empty-rodir", 3, 0, "gz")
+	cmd("obigrep", "empty-nofault", 3, 0, "gz")
 	for _, fm := range []string{"fasta", "fastq", "json", "gz"} {
 		cmd("obiconvert", "paired2", 30, 0, fm) // the second file of a paired output fails
 		cmd("obiconvert", "paired1", 30, 0, fm) // the first one
@@ -589,6 +600,7 @@ func (c18) Gen(rng *rand.Rand, tier string, emit func(string)) {
 			}
 		}
 	}
+	c18GenGlue(rng, tier, add) // the glue between the commands and the writers (c18_glue.go)
 	c18Precompute(lines)
 	for _, l := range lines {
 		emit(l)
@@ -618,7 +630,7 @@ func c18NeedsChild(f []string) bool {
 	switch f[0] {
 	case "cmd", "wf":
 		return false
-	case "dev", "multi", "disp":
+	case "dev", "multi", "disp", "glue":
 		return true
 	}
 	if len(f) < 6 {
@@ -713,6 +725,8 @@ func (c18) Exec(c string) (string, []Fail) {
 		return c18ExecMulti(f)
 	case "disp":
 		return c18ExecDisp(f)
+	case "glue":
+		return c18ExecGlue(f)
 	}
 	return c18ExecOne(f)
 }
@@ -1610,6 +1624,16 @@ func c18Cmd(f []string) (res c18Res) {
 	for _, c := range append(append([]string{}, c18Commands...), c18DynCommands...) {
 		known = known || c == name
 	}
+	// empty-<scenario>: the same scenario with a result that holds NO sequence (obigrep selecting nothing): what has to
+	// reach the output is what the same command writes on a regular file (N bytes, measured first)
+	scFull := sc
+	empty := strings.HasPrefix(sc, "empty-")
+	if empty {
+		sc = sc[len("empty-"):]
+		if name != "obigrep" {
+			return bad("", "")
+		}
+	}
 	isDyn := strings.Contains(sc, "dyn-")
 	if (name == "obimultiplex" || name == "obitagpcr") && !isDyn {
 		return bad("", "")
@@ -1634,6 +1658,8 @@ func c18Cmd(f []string) (res c18Res) {
 		case "json":
 			args = append(args, "--json-output")
 			ext = "json"
+		case "xfasta":
+			args = append(args, "--fasta-output")
 		case "gz":
 			args = append(args, "-Z")
 		}
@@ -1648,7 +1674,11 @@ func c18Cmd(f []string) (res c18Res) {
 	case "obicsv":
 		in = append([]string{"-i", "-s"}, in...)
 	case "obigrep":
-		in = append([]string{"-l", "10"}, in...)
+		if empty {
+			in = append([]string{"-l", "100000"}, in...) // selects nothing
+		} else {
+			in = append([]string{"-l", "10"}, in...)
+		}
 	case "obiannotate":
 		in = append([]string{"--length"}, in...)
 	case "obimultiplex", "obitagpcr":
@@ -1666,6 +1696,7 @@ func c18Cmd(f []string) (res c18Res) {
 			in = []string{"-l", "1000", fasta}
 		}
 	}
+	fmtArgs := append([]string{}, args...)
 	var keptOld func() bool
 	var lateReader func(done chan error) bool // dyn-*-fifo: true = the command exited before its second output was opened
 	outFile := filepath.Join(dir, "out."+ext)
@@ -1767,6 +1798,10 @@ func c18Cmd(f []string) (res c18Res) {
 			os.Remove(filepath.Join(ro, "probe"))
 			sc = "nofault-rodir"
 			f[2] = sc
+			if empty {
+				f[2] = "empty-" + sc
+			}
+			scFull = f[2]
 			res.over = strings.Join(f, " ")
 		}
 		args = append(args, "-o", filepath.Join(ro, "out."+ext))
@@ -1930,6 +1965,22 @@ func c18Cmd(f []string) (res c18Res) {
 	default:
 		return bad("", "")
 	}
+	needed := int64(-1)
+	if empty {
+		refOut := filepath.Join(dir, "reference.out")
+		rc := exec.Command(bin, append(append(append([]string{}, in...), fmtArgs...), "-o", refOut)...)
+		rc.Env = c18CmdEnv()
+		if err := rc.Run(); err != nil {
+			return bad("cmd."+name+".reference-run", err.Error())
+		}
+		needed = fileSize(refOut)
+		if needed < 0 {
+			needed = 0
+		}
+		f[4] = strconv.FormatInt(needed, 10) // data for the model: the size of the complete output
+		res.over = strings.Join(f, " ")
+		res.stats[fmt.Sprintf("subprocess:empty-result:needs-bytes=%v", needed > 0)]++
+	}
 	cmd := exec.Command(bin, append(in, args...)...)
 	var stderr bytes.Buffer
 	cmd.Stderr = &stderr
@@ -1970,13 +2021,20 @@ func c18Cmd(f []string) (res c18Res) {
 	if after != nil {
 		after()
 	}
-	res.stats["subprocess:"+sc]++
+	res.stats["subprocess:"+scFull]++
 	res.stats["subprocess-cmd:"+name]++
 	class := "small"
 	if n > 100 {
 		class = "large"
 	}
-	sig := "cmd." + name + "." + sc + "." + class
+	sig := "cmd." + name + "." + scFull + "." + class
+	if empty && needed == 0 && (sc == "devfull" || sc == "stdoutfull") {
+		// nothing has to reach the output: the command must not fail (no false alarm), and must leave nothing behind
+		if res.res != "exit0" {
+			res.fails = append(res.fails, Fail{Sig: sig, Text: name + " with an empty result that needs no byte ended with " + res.res + ": " + c18Tail(stderr.String())})
+		}
+		return res
+	}
 	if exitedEarly {
 		// the window of Props/C18Reg.lean uncovered_window on the real command: main passed WaitForLastPipe before the
 		// writer of the second output had registered (nobody ever opened the output: the FIFO has no reader yet)
@@ -1987,6 +2045,10 @@ func c18Cmd(f []string) (res c18Res) {
 	if strings.HasPrefix(sc, "nofault") {
 		if res.res != "exit0" {
 			res.fails = append(res.fails, Fail{Sig: sig, Text: name + " whose outputs can all be written ended with " + res.res + ": " + c18Tail(stderr.String())})
+		} else if empty {
+			if produced != nil && produced() != needed {
+				res.fails = append(res.fails, Fail{Sig: sig, Text: fmt.Sprintf("%s ended with status 0 but its output holds %d bytes instead of %d", name, produced(), needed)})
+			}
 		} else if produced != nil && produced() <= 0 {
 			res.fails = append(res.fails, Fail{Sig: sig, Text: name + " ended with status 0 but an output is missing or empty"})
 		}
